@@ -128,6 +128,11 @@ Nm(slot, l) == [t |-> "n", v |-> l, slot |-> slot]
 \* none): a prefix and a node name are different things even when they are spelled alike (a container bgp and an import
 \* prefix bgp, an unknown prefix spelled like an earlier step, a prefix spelled like a function or operator name)
 Ln(slot) == [t |-> "ln", v |-> "n0", slot |-> slot]
+\* a WILDCARD name test: `p:*` - every child in the namespace the prefix is bound to; the prefix is expanded exactly like the
+\* prefix of a QName and "it is an error if there is no namespace declaration for the prefix" (XPath 1.0, 2.3) - or, when the
+\* slot has no prefix, the bare `*` (every child, whatever its namespace: the namespace of that name test is not judged).
+\* A leafref path has no wildcards (RFC 6020 section 12, path-arg: node-identifier only): for a path they are in the reject pool.
+Wc(slot) == [t |-> "w", v |-> "*", slot |-> slot]
 AcceptPool(kind) ==
   IF kind = "path"
   THEN << <<Lit("../"), Nm(1, "n1")>>,
@@ -143,13 +148,24 @@ AcceptPool(kind) ==
           <<Lit("current()/../"), Nm(2, "n1"), Lit(" != ''")>>,
           <<Lit("../"), Ln(1), Lit("/"), Nm(1, "as"), Lit(" > 0")>>,
           <<Lit("../"), Nm(1, "peer"), Lit(" or ../"), Ln(1)>>,
-          <<Lit("count(../"), Ln(2), Lit("/"), Nm(1, "n1"), Lit(") = count(/"), Nm(2, "n2"), Lit("/"), Ln(1), Lit(")")>> >>
+          <<Lit("count(../"), Ln(2), Lit("/"), Nm(1, "n1"), Lit(") = count(/"), Nm(2, "n2"), Lit("/"), Ln(1), Lit(")")>>,
+          \* wildcard name tests in every position of a prefix: the only step, first / middle / last step, function
+          \* argument, predicate, next to the multiplication operator (which is spelled like the wildcard)
+          <<Wc(1), Lit(" = 'v'")>>,
+          <<Wc(1), Lit("/"), Nm(2, "n2"), Lit(" != ''")>>,
+          <<Lit("/"), Nm(1, "n1"), Lit("/"), Wc(2), Lit("/"), Nm(1, "n2"), Lit(" = 'v'")>>,
+          <<Lit("../"), Ln(1), Lit("/"), Wc(1), Lit(" = 'v'")>>,
+          <<Lit("count("), Wc(1), Lit(") > 0")>>,
+          <<Lit("../"), Ln(1), Lit("["), Wc(1), Lit(" = 'x']")>>,
+          <<Lit("not(../"), Wc(2), Lit("["), Wc(1), Lit("]) or "), Wc(2)>>,
+          <<Wc(1), Lit(" * 2 > "), Wc(1)>> >>
 \* syntactically invalid arguments (clearly so: unbalanced brackets, two names in a row, unknown
 \* function, dangling operator, unterminated literal; for a path also anything that is not a path)
 RejectPool(kind) ==
   IF kind = "path"
   THEN << <<Lit("../n1 n2")>>, <<Lit("../n1[n2")>>, <<Lit("../n1]")>>, <<Lit("../n1[n2 = ]")>>, <<Lit("nosuchfn(../n1)")>>,
-          <<Lit("../n1 = 1")>>, <<Lit("1")>>, <<Lit("../n1[n2 = current()]")>>, <<Lit("../"), Nm(1, "n1"), Lit("/")>> >>
+          <<Lit("../n1 = 1")>>, <<Lit("1")>>, <<Lit("../n1[n2 = current()]")>>, <<Lit("../"), Nm(1, "n1"), Lit("/")>>,
+          <<Lit("../"), Wc(1)>>, <<Lit("/"), Nm(1, "n1"), Lit("/"), Wc(2), Lit("/"), Nm(1, "n2")>> >>
   ELSE << <<Lit("n1 n2")>>, <<Lit("(n1 = 1")>>, <<Lit("n1 = 1)")>>, <<Lit("n1[n2")>>, <<Lit("n1]")>>, <<Lit("nosuchfn(n1)")>>,
           <<Lit("n1 =")>>, <<Lit("'abc")>>, <<Lit("n1 + ")>>, <<Lit("n1 = = 2")>>, <<Nm(1, "n1"), Lit(" n2")>> >>
 NAccept(kind) == Len(AcceptPool(kind))
@@ -157,9 +173,23 @@ Expr(s) == IF s.e <= NAccept(s.kind) THEN AcceptPool(s.kind)[s.e] ELSE RejectPoo
 \* ---- invalid arguments DERIVED from the valid ones: truncation (every proper prefix), deletion of a quote / bracket /
 \* parenthesis, insertion of one at every position.  Only results that are CLEARLY invalid are kept (decided on
 \* characters, no grammar needed): a literal left open, unbalanced ( ) or [ ] outside literals, or the text ends - after
-\* blanks - in an operator (= > < ! + , or and), in the colon of a prefix, or in a slash that is not the whole expression.
-NoMut == [op |-> "none", at |-> 0, ch |-> ""]
+\* blanks - in an operator (= > < ! + , or and), in the colon of a prefix, or in a slash that is not the whole expression - unless what
+\* precedes that last word / slash expects a name there (then `or`, `and` are name tests and `/` is the root: valid or not judged).
+\* ---- CHARACTERS are input too.  Outside a literal an expression consists of tokens and ExprWhitespace (XPath 1.0, 3.7;
+\* whitespace = #x20 #x9 #xD #xA); no token contains a C0 control character or DEL, so an expression with one of them (other
+\* than tab, CR, LF) outside a literal is not an expression - whatever follows the character.  Mutation "ctl" inserts such a
+\* character (ch = its code, two hex digits; the text carries the mark {U+00hh}, the driver writes the real character)
+\* followed by `tail`, "ctlcut" replaces the rest of the text by them.  The tails are nothing or text that is wrong on its own
+\* (unbalanced brackets, an undeclared prefix): nothing behind the character may be lost sight of.  A control character INSIDE
+\* a literal is not generated (Literal ::= '"' [^"]* '"' admits it; XML's Char does not: not judged).
+CtlChars == {"00", "01", "02", "03", "04", "05", "06", "07", "08", "0B", "0C", "0E", "0F", "10", "11", "12", "13", "14", "15", "16",
+             "17", "18", "19", "1A", "1B", "1C", "1D", "1E", "1F", "7F"}
+CtlMark(ch) == "{U+00" \o ch \o "}"
+JunkTails == {"", " (((", " ]]]", "or zz:y", " or zz:y", "/zz:q[", " zz:junk", "((( zz:junk"}
+NoMut == [op |-> "none", at |-> 0, ch |-> "", tail |-> ""]
 Mutate(t, m) == CASE m.op = "trunc" -> SubSeq(t, 1, m.at)
+                  [] m.op = "ctl" -> (IF m.at = 0 THEN "" ELSE SubSeq(t, 1, m.at)) \o CtlMark(m.ch) \o m.tail \o (IF m.at = Len(t) THEN "" ELSE SubSeq(t, m.at + 1, Len(t)))
+                  [] m.op = "ctlcut" -> (IF m.at = 0 THEN "" ELSE SubSeq(t, 1, m.at)) \o CtlMark(m.ch) \o m.tail
                   [] m.op = "del" -> (IF m.at = 1 THEN "" ELSE SubSeq(t, 1, m.at - 1)) \o (IF m.at = Len(t) THEN "" ELSE SubSeq(t, m.at + 1, Len(t)))
                   [] m.op = "ins" -> (IF m.at = 0 THEN "" ELSE SubSeq(t, 1, m.at)) \o m.ch \o (IF m.at = Len(t) THEN "" ELSE SubSeq(t, m.at + 1, Len(t)))
                   [] OTHER -> t
@@ -177,41 +207,62 @@ Scan(t, i, st) ==
                       ELSE st)
 RECURSIVE LastNonSpace(_, _)
 LastNonSpace(t, n) == IF n = 0 THEN 0 ELSE IF SubSeq(t, n, n) = " " THEN LastNonSpace(t, n - 1) ELSE n
+\* does the text up to position m end (after blanks) in something after which a NAME is expected - nothing at all, an operator
+\* character, an opening bracket, a comma, or the letters of an operator name?  Then a following `or` / `and` is a name test
+\* (XPath 1.0, 3.7: an NCName is an operator name only when a preceding token exists and is not an operator ...) and a
+\* following `/` is the root: such endings are not "clearly invalid".  (Over-approximated on purpose: `floor` ends in `or`.)
+EndsIn(t, k, w) == k >= Len(w) /\ SubSeq(t, k - Len(w) + 1, k) = w
+NameExpectedAfter(t, m) == LET k == LastNonSpace(t, m) IN
+                           k = 0 \/ SubSeq(t, k, k) \in {"=", ">", "<", "!", "+", "-", "*", "/", "|", "(", "[", ",", ":", "@"}
+                                 \/ EndsIn(t, k, "or") \/ EndsIn(t, k, "and") \/ EndsIn(t, k, "div") \/ EndsIn(t, k, "mod")
 EndsBad(t) == LET n == LastNonSpace(t, Len(t)) IN
               n >= 1 /\ LET c == SubSeq(t, n, n) IN
-                        \/ c \in {"=", ">", "<", "!", ":", "+", ","} \/ (c = "/" /\ n > 1)
-                        \/ (n >= 4 /\ SubSeq(t, n - 2, n) = " or") \/ (n >= 5 /\ SubSeq(t, n - 3, n) = " and")
+                        \/ c \in {"=", ">", "<", "!", ":", "+", ","} \/ (c = "/" /\ n > 1 /\ ~NameExpectedAfter(t, n - 1))
+                        \/ (n >= 4 /\ SubSeq(t, n - 2, n) = " or" /\ ~NameExpectedAfter(t, n - 3))
+                        \/ (n >= 5 /\ SubSeq(t, n - 3, n) = " and" /\ ~NameExpectedAfter(t, n - 4))
 ClearlyInvalid(t) == LET st == Scan(t, 1, St0) IN
                      Len(t) >= 1 /\ (st.q \/ st.po # st.pc \/ st.bo # st.bc \/ st.neg \/ EndsBad(t))
 MarkChars == {"'", "(", ")", "[", "]"}
-Muts(t) == {m \in {[op |-> "trunc", at |-> i, ch |-> ""] : i \in 1..(Len(t) - 1)}
-                  \cup {[op |-> "del", at |-> i, ch |-> ""] : i \in {j \in 1..Len(t) : SubSeq(t, j, j) \in MarkChars}}
-                  \cup {[op |-> "ins", at |-> x[1], ch |-> x[2]] : x \in (0..Len(t)) \X MarkChars}
+Muts(t) == {m \in {[op |-> "trunc", at |-> i, ch |-> "", tail |-> ""] : i \in 1..(Len(t) - 1)}
+                  \cup {[op |-> "del", at |-> i, ch |-> "", tail |-> ""] : i \in {j \in 1..Len(t) : SubSeq(t, j, j) \in MarkChars}}
+                  \cup {[op |-> "ins", at |-> x[1], ch |-> x[2], tail |-> ""] : x \in (0..Len(t)) \X MarkChars}
             : ClearlyInvalid(Mutate(t, m))}
+\* positions (0 = before the first character .. Len) that are outside a literal
+OutsideLit(t) == {i \in 0..Len(t) : i = 0 \/ ~Scan(SubSeq(t, 1, i), 1, St0).q}
 SyntaxOK(s) == s.e <= NAccept(s.kind) /\ s.mut.op = "none"
-Slots(x) == {x[i].slot : i \in {j \in 1..Len(x) : x[j].t \in {"n", "ln"}}}      \* slots that shape the text
-PSlots(x) == {x[i].slot : i \in {j \in 1..Len(x) : x[j].t = "n"}}              \* slots used as a PREFIX
-RECURSIVE Text(_, _)
-Text(x, pf) == IF x = << >> THEN ""
-               ELSE (IF x[1].t = "s" THEN x[1].v
-                     ELSE IF x[1].t = "ln" THEN (IF pf[x[1].slot] = "" THEN x[1].v ELSE pf[x[1].slot])
-                     ELSE IF pf[x[1].slot] = "" THEN x[1].v ELSE pf[x[1].slot] \o ":" \o x[1].v)
-                    \o Text(Tail(x), pf)
-NameToks(x) == SelectSeq(x, LAMBDA k : k.t \in {"n", "ln"})
+Slots(x) == {x[i].slot : i \in {j \in 1..Len(x) : x[j].t \in {"n", "ln", "w"}}}      \* slots that shape the text
+PSlots(x) == {x[i].slot : i \in {j \in 1..Len(x) : x[j].t \in {"n", "w"}}}         \* slots used as a PREFIX
+\* how the colon between a prefix and its local part (or `*`) is written: "" = `p:n`; l / r / lr = a blank on the left / right /
+\* both sides.  A QName and `p:*` are single tokens, whitespace is only allowed BETWEEN tokens (XPath 1.0, 3.7; RFC 6020
+\* node-identifier), yet lexers that skip blanks there exist (this one does): a statement written like this whose prefixes are
+\* all declared is LOOSE - its validity is not judged; if it is accepted, its machine and namespaces are.  With an undeclared
+\* prefix it is an error under either reading.
+Colon(sp) == CASE sp = "l" -> " :" [] sp = "r" -> ": " [] sp = "lr" -> " : " [] OTHER -> ":"
+RECURSIVE Text(_, _, _)
+Text(x, pf, sp) == IF x = << >> THEN ""
+                   ELSE (IF x[1].t = "s" THEN x[1].v
+                         ELSE IF x[1].t = "ln" THEN (IF pf[x[1].slot] = "" THEN x[1].v ELSE pf[x[1].slot])
+                         ELSE IF pf[x[1].slot] = "" THEN x[1].v ELSE pf[x[1].slot] \o Colon(sp) \o x[1].v)
+                        \o Text(Tail(x), pf, sp)
+NameToks(x) == SelectSeq(x, LAMBDA k : k.t \in {"n", "ln", "w"})
 
 \* ------------------------------------------------------------- meaning
 UnknownPrefix(c, s) == \E i \in PSlots(Expr(s)) : s.pf[i] # "" /\ ~Known(c, s.T, s.pf[i])
 Bad(c, s) == ~SyntaxOK(s) \/ UnknownPrefix(c, s)
+UsesPrefix(s) == \E i \in PSlots(Expr(s)) : s.pf[i] # ""
+Loose(c, s) == ~Bad(c, s) /\ s.sp # "" /\ UsesPrefix(s)
 \* namespace of the i-th name test ("*" = not judged)
-NameNs(c, s, k) == IF k.t = "n" /\ s.pf[k.slot] # "" THEN (IF Known(c, s.T, s.pf[k.slot]) THEN Ns(Lookup(c, s.T, s.pf[k.slot])) ELSE "?")
-                   ELSE IF CurMod(s) = "*" THEN "*" ELSE Ns(ModOf(CurMod(s)))
+NameNs(c, s, k) == IF k.t \in {"n", "w"} /\ s.pf[k.slot] # "" THEN (IF Known(c, s.T, s.pf[k.slot]) THEN Ns(Lookup(c, s.T, s.pf[k.slot])) ELSE "?")
+                   ELSE IF k.t = "w" \/ CurMod(s) = "*" THEN "*" ELSE Ns(ModOf(CurMod(s)))
 Names(c, s) == LET x == NameToks(Expr(s)) IN [i \in 1..Len(x) |-> [ns |-> NameNs(c, s, x[i]), l |-> IF x[i].t = "ln" /\ s.pf[x[i].slot] # "" THEN s.pf[x[i].slot] ELSE x[i].v]]
 \* an instance: a configuration and a sequence of statements
-Verdict(I) == IF \E i \in 1..Len(I.stmts) : Bad(I.cfg, I.stmts[i]) THEN "error" ELSE "ok"
+\* "any": no statement is wrong, but the validity of one is not judged (Loose)
+Verdict(I) == IF \E i \in 1..Len(I.stmts) : Bad(I.cfg, I.stmts[i]) THEN "error"
+              ELSE IF \E i \in 1..Len(I.stmts) : Loose(I.cfg, I.stmts[i]) THEN "any" ELSE "ok"
 BadStmts(I) == {i \in 1..Len(I.stmts) : Bad(I.cfg, I.stmts[i])}
 
 \* ------------------------------------------------------------- instance space
-Stmt(kind, place, site, e, pf) == [kind |-> kind, place |-> place, T |-> site[1], U |-> site[2], V |-> site[3], e |-> e, pf |-> pf, on |-> 0, hp |-> "", mut |-> NoMut]
+Stmt(kind, place, site, e, pf) == [kind |-> kind, place |-> place, T |-> site[1], U |-> site[2], V |-> site[3], e |-> e, pf |-> pf, on |-> 0, hp |-> "", mut |-> NoMut, sp |-> ""]
 PfChoices(c, m, x) == LET sl == Slots(x) IN
                       {pf \in [1..2 -> Choices(c, m)] : \A i \in 1..2 : i \notin sl => pf[i] = ""}
 StmtsOf(c, kind, place) ==
@@ -228,31 +279,58 @@ PfGood(c, m, x) == LET sl == Slots(x)  ch == {""} \cup {b[1] : b \in PMap(c, m)}
                    {pf \in [1..2 -> ch] : \A i \in 1..2 : i \notin sl => pf[i] = ""}
 \* one random statement of the kind at the place (a singleton set; empty if the configuration has no such site):
 \* good = from the accept pool with declared prefixes only; otherwise accept pool 2 : 1 reject pool, any prefix
-SampleOne(c, kind, place, good) ==
+\* spm: how the colons are written - "none" = `p:n` always, "mix" = half of the statements that use a prefix get blanks, "force" = all of them
+SampleSp(c, kind, place, good, spm) ==
   IF Sites(c, place) = {} THEN {}
-  ELSE UNION {UNION {{Stmt(kind, place, site, e, pf)
+  ELSE UNION {UNION {UNION {{[Stmt(kind, place, site, e, pf) EXCEPT !.sp = sp]
+                             : sp \in {IF spm = "none" \/ (\A i \in PSlots(ExprAt(kind, e)) : pf[i] = "") \/ (spm = "mix" /\ RandomElement(1..2) = 1)
+                                       THEN "" ELSE RandomElement({"l", "r", "lr"})}}
                       : pf \in {RandomElement(IF good THEN PfGood(c, site[1], ExprAt(kind, e)) ELSE PfChoices(c, site[1], ExprAt(kind, e)))}}
                      : e \in {IF good \/ RandomElement(1..3) > 1 THEN RandomElement(1..NAccept(kind))
                               ELSE NAccept(kind) + RandomElement(1..Len(RejectPool(kind)))}}
               : site \in {RandomElement(Sites(c, place))}}
+SampleOne(c, kind, place, good) == SampleSp(c, kind, place, good, IF good THEN "none" ELSE "mix")
+SpacedStmts(c, kind, place, n) == UNION {SampleSp(c, kind, place, FALSE, "force") : i \in 1..n}
 SampleStmts(c, kind, place, n) == UNION {SampleOne(c, kind, place, FALSE) : i \in 1..n}
 RandStmt(c, good) == UNION {UNION {SampleOne(c, k, p, good) : p \in {RandomElement({q \in Places(k) : Sites(c, q) # {}})}} : k \in {RandomElement(Kinds)}}
 \* ---- mutated statements: a valid statement whose argument is made clearly invalid by one truncation / deletion / insertion
-SText(s) == Mutate(Text(Expr(s), s.pf), s.mut)
+SText(s) == Mutate(Text(Expr(s), s.pf, s.sp), s.mut)
 MutOne(c) == UNION {UNION {IF MS = {} THEN {} ELSE {[cfg |-> c, stmts |-> <<[s EXCEPT !.mut = RandomElement(MS)]>>]}
-                           : MS \in {Muts(Text(Expr(s), s.pf))}} : s \in RandStmt(c, TRUE)}
+                           : MS \in {Muts(Text(Expr(s), s.pf, s.sp))}} : s \in RandStmt(c, TRUE)}
 Mutated(c, n) == UNION {MutOne(c) : i \in 1..n}
+\* ---- control characters: a valid statement (random placement, declared prefixes) with one control character outside a literal -
+\* at the end of the text (where what precedes it is a whole expression) or at a random position - and a random tail
+GoodOfKind(c, k) == UNION {SampleOne(c, k, p, TRUE) : p \in {RandomElement({q \in Places(k) : Sites(c, q) # {}})}}
+CtlOne(c, k, ch, atEnd) ==
+  UNION {UNION {{[cfg |-> c, stmts |-> <<[s EXCEPT !.mut = [op |-> o, at |-> i, ch |-> ch, tail |-> tl]]>>]
+                 : o \in {RandomElement({"ctl", "ctlcut"})}, tl \in {RandomElement(JunkTails)}}
+                : i \in {IF atEnd THEN Len(Text(Expr(s), s.pf, s.sp)) ELSE RandomElement(OutsideLit(Text(Expr(s), s.pf, s.sp)))}}
+         : s \in GoodOfKind(c, k)}
+Ctl(c, n) == UNION {UNION {CtlOne(c, k, ch, TRUE) \cup UNION {CtlOne(c, k, ch, FALSE) : i \in 1..n} : k \in Kinds} : ch \in CtlChars}
+\* every accept expression x every position outside a literal x every control character (written directly in m1, own prefix), random tail
+CtlAll(c) ==
+  UNION {UNION {UNION {UNION {{[cfg |-> c, stmts |-> <<[Stmt(k, "direct", <<"m1", "m1", "m1">>, e, pf) EXCEPT !.mut = [op |-> o, at |-> i, ch |-> ch, tail |-> tl]]>>]
+                               : o \in {RandomElement({"ctl", "ctlcut"})}, tl \in {RandomElement(JunkTails)}}
+                              : i \in OutsideLit(Text(AcceptPool(k)[e], pf, "")), ch \in CtlChars}
+                       : pf \in {[j \in 1..2 |-> IF j \in Slots(AcceptPool(k)[e]) THEN Own(c, "m1") ELSE ""]}}
+                : e \in 1..NAccept(k)} : k \in Kinds}
 \* every clearly invalid mutation of every accept expression (written directly in m1, without prefixes and with m1's own)
 MutAll(c) ==
   UNION {UNION {UNION {{[cfg |-> c, stmts |-> <<[Stmt(k, "direct", <<"m1", "m1", "m1">>, e, pf) EXCEPT !.mut = m]>>]
-                        : m \in Muts(Text(AcceptPool(k)[e], pf))}
+                        : m \in Muts(Text(AcceptPool(k)[e], pf, ""))}
                        : pf \in {[i \in 1..2 |-> IF i \in Slots(AcceptPool(k)[e]) THEN p ELSE ""] : p \in {"", Own(c, "m1")}}}
                 : e \in 1..NAccept(k)} : k \in Kinds}
 
 \* the truncations that end right after an opening quote, bracket or parenthesis, an operator character, a prefix colon or a
 \* slash (always generated, also in the quick tier)
-MutBoundary(c) == {I \in MutAll(c) : LET s == I.stmts[1]  t == SText(s) IN
-                                      s.mut.op = "trunc" /\ SubSeq(t, Len(t), Len(t)) \in {"'", "(", "[", "=", ">", "<", "!", ":", "/", "+", ","}}
+\* (the same set as {I \in MutAll(c) : truncation /\ last character in BoundaryChars}, computed without materialising MutAll)
+BoundaryChars == {"'", "(", "[", "=", ">", "<", "!", ":", "/", "+", ","}
+MutBoundary(c) ==
+  UNION {UNION {UNION {{[cfg |-> c, stmts |-> <<[Stmt(k, "direct", <<"m1", "m1", "m1">>, e, pf) EXCEPT !.mut = [op |-> "trunc", at |-> i, ch |-> "", tail |-> ""]]>>]
+                        : i \in {j \in 1..(Len(Text(AcceptPool(k)[e], pf, "")) - 1) :
+                                   LET t == Text(AcceptPool(k)[e], pf, "") IN SubSeq(t, j, j) \in BoundaryChars /\ ClearlyInvalid(SubSeq(t, 1, j))}}
+                       : pf \in {[i \in 1..2 |-> IF i \in Slots(AcceptPool(k)[e]) THEN p ELSE ""] : p \in {"", Own(c, "m1")}}}
+                : e \in 1..NAccept(k)} : k \in Kinds}
 
 \* ---- several statements on one node.  A host statement (must, when or path; written directly, in a grouping used
 \* locally / from another unit, or under augment) and two or three further statements on the SAME node: musts (and, if
@@ -266,7 +344,7 @@ Modes(c, h) == {"same"} \cup (IF h.place \in {"grp-local", "grp-cross"} THEN {"r
                \cup (IF h.place = "direct" /\ DevUnits(c, h) # {} THEN {"deviate-on"} ELSE {})
 \* one random further statement (singleton set) of the kind on the node of host h (statement number j), expression not in `used`
 ExtraOne(c, h, j, kind, mode, good, used) ==
-  UNION {UNION {UNION {{[kind |-> kind, place |-> mode, T |-> t, U |-> h.U, V |-> h.V, e |-> e, pf |-> pf, on |-> j, hp |-> h.place, mut |-> NoMut]
+  UNION {UNION {UNION {{[kind |-> kind, place |-> mode, T |-> t, U |-> h.U, V |-> h.V, e |-> e, pf |-> pf, on |-> j, hp |-> h.place, mut |-> NoMut, sp |-> ""]
                         : pf \in {RandomElement(IF good THEN PfGood(c, t, ExprAt(kind, e)) ELSE PfChoices(c, t, ExprAt(kind, e)))}}
                        : e \in {IF good \/ RandomElement(1..2) = 1 THEN RandomElement((1..NAccept(kind)) \ used)
                                 ELSE NAccept(kind) + RandomElement(1..Len(RejectPool(kind)))}}
